@@ -746,8 +746,17 @@ func TestVPReplay(t *testing.T) {
 	cmd := exec.Command("/bin/sh", filepath.Join(dir, "replay.sh"))
 	out, err := cmd.CombinedOutput()
 	s := string(out)
-	if err != nil && (strings.Contains(s, "VP-REPRODUCED") || strings.Contains(s, "panic:")) {
-		return true, s
+	if err != nil {
+		switch v.Kind {
+		case "assert":
+			if strings.Contains(s, "VP-ASSERT "+v.Label) {
+				return true, s
+			}
+		default:
+			if strings.Contains(s, "VP-REPRODUCED") || strings.Contains(s, "panic:") {
+				return true, s
+			}
+		}
 	}
 	return false, s
 }
